@@ -26,6 +26,10 @@ type c06Case struct {
 	Reps int     `json:"reps"`
 	// Loop: the branch of alternative 0 leads back to the gateway (second, third ... activation of the same gateway)
 	Loop bool `json:"loop,omitempty"`
+	// Burst (with Conc): ten non-matching events and then the sequence are handed over back to back from ONE
+	// goroutine without letting the instance settle (more than a catch event's inbox holds); the catch events
+	// work them off concurrently, so any delivered alternative may win - exactly one
+	Burst bool `json:"burst,omitempty"`
 }
 
 func c06Graph(c *c06Case) *gen.Graph {
@@ -131,6 +135,17 @@ func c06Cases(tier string, seed uint64) []fw.Case {
 					c.Name = fmt.Sprintf("conc/a%d-%v-h%v", alts, sq, hook)
 					cs = append(cs, fw.MkCase("concurrent", &c))
 				}
+				for _, hook := range []float64{0, 0.5} {
+					if tier != "thorough" && (si+int(hook*2))%3 != 0 {
+						continue
+					}
+					c := c06Case{Alts: alts, Seq: sq, Conc: true, Burst: true, Hook: hook, Msg: msg, Reps: 5}
+					if tier == "thorough" {
+						c.Reps = 40
+					}
+					c.Name = fmt.Sprintf("burst/a%d-%v-h%v", alts, sq, hook)
+					cs = append(cs, fw.MkCase("burst", &c))
+				}
 			}
 		}
 	}
@@ -153,7 +168,7 @@ func c06Run(c *c06Case, env *fw.Env, v *fw.V) {
 		perturb.ConfigureSites(map[string]float64{"ebg.cas": c.Hook, "ebg.won": c.Hook, "catch.consume": c.Hook / 2, "catch.event": c.Hook / 2}, 400)
 	} else {
 		perturb.Off()
-		if c.Conc {
+		if c.Conc && !c.Burst {
 			// no delays, but the competing flows are aligned in front of the determination:
 			// all distinct alternatives of the batch leave the hook at the same instant
 			distinct := map[int]bool{}
@@ -173,6 +188,9 @@ func c06Run(c *c06Case, env *fw.Env, v *fw.V) {
 	}
 	defer in.Cancel()
 	cls := fmt.Sprintf("alts=%d-conc=%v", c.Alts, c.Conc)
+	if c.Burst {
+		cls = fmt.Sprintf("alts=%d-burst", c.Alts)
+	}
 	fail := func() { v.Log = in.Tail(50) }
 	quiet := func(what string) (quiesce.Result, bool) {
 		q := in.Quiesce(step.Watchdog)
@@ -231,7 +249,26 @@ func c06Run(c *c06Case, env *fw.Env, v *fw.V) {
 			break
 		}
 	}
-	if c.Conc {
+	if c.Burst {
+		var evs []event.IEvent
+		for k := 0; k < 10; k++ {
+			evs = append(evs, c06Event(c, c.Alts))
+		}
+		for _, e := range c.Seq {
+			evs = append(evs, c06Event(c, e))
+		}
+		in.Go("ConsumeEvent", func() error {
+			for _, ev := range evs {
+				if _, err := in.Proc.ConsumeEvent(ev); err != nil {
+					return err
+				}
+			}
+			return nil
+		})
+		if _, ok := quiet("after the burst"); !ok {
+			return
+		}
+	} else if c.Conc {
 		var wg sync.WaitGroup
 		barrier := make(chan struct{})
 		for _, e := range c.Seq {
@@ -585,7 +622,7 @@ func init() {
 			v.Nontrivial = true
 			return v
 		},
-		Rule:        "gateways with 2 and 3 alternatives x all non-empty sequences of length <= 4 over the alternatives' events plus a stranger event, delivered sequentially (quiescence between deliveries; winner must be the first delivered alternative) and concurrently from different goroutines behind a barrier (exactly one request in total), signal and message events, determination hooks at probability 0/0.5/1; then the winner's task is answered: instance completes, waiter returns, late deliveries of every alternative have no effect; re-entry variants: alternative 0's branch loops back to the same gateway (2..4 activations), every activation must re-arm all alternatives and have exactly one winner, sequentially and with the second activation's events delivered at once; all cases non-trivial; distinct = descriptor hash",
+		Rule:        "gateways with 2 and 3 alternatives x all non-empty sequences of length <= 4 over the alternatives' events plus a stranger event, delivered sequentially (quiescence between deliveries; winner must be the first delivered alternative) and concurrently from different goroutines behind a barrier (exactly one request in total), signal and message events, determination hooks at probability 0/0.5/1; then the winner's task is answered: instance completes, waiter returns, late deliveries of every alternative have no effect; re-entry variants: alternative 0's branch loops back to the same gateway (2..4 activations), every activation must re-arm all alternatives and have exactly one winner, sequentially and with the second activation's events delivered at once; all cases non-trivial; distinct = descriptor hash; burst variants: ten non-matching events and then the sequence handed over back to back from one goroutine (exactly one winner among the delivered alternatives, completion, late deliveries without effect)",
 		Exhaustive:  func(tier string) bool { return tier == "thorough" },
 		Assumptions: []string{"events are delivered through Process.ConsumeEvent"},
 	})
